@@ -45,7 +45,7 @@ def cases(draw, tier):
     cfg["B0"] = {"class": "VScriptedAgent", "numAgents": 2, "markets": allm, "assetVolume": 10, "cashAmount": 1000,
                  "scripts": [[[["L", i, True, 1, 1, 3]] for i in range(len(allm))] + [[["L", i, False, -1, 1, 3]] for i in range(len(allm))]]}
     cfg["simulation"]["agents"].append("B0")
-    cfg["SNAP"] = {"class": "VSnapEvent", "hooks": [["market", True, None, None, None]]}
+    cfg["SNAP"] = {"class": "VSnapEvent", "hooks": [["market", True, None, None, None], ["market", False, None, None, None]]}
     events = ["SNAP"]
     if draw(st.booleans()):
         cfg["SH"] = {"class": "FundamentalPriceShock", "target": draw(st.sampled_from(names)), "triggerTime": draw(st.integers(0, max(0, total - 1))),
